@@ -294,6 +294,7 @@ var hazardPrograms = []string{
 	"function f() { 'use\\u0020strict'; return this === undefined } $p(f());",
 	"function f() { \"use strict\"; return this === undefined } function g() { ('use strict'); return this === undefined } $p(f(), g());",
 	"function g() { 'a' + 'b'; 'use strict'; return this === undefined } $p(g());",
+	"for (var i of [1]) { if (i) continue; function f() { return 1 } } $p(typeof f); { function h() {} } $p(typeof h); sw: { break sw; function k() {} } $p(typeof k);",
 	"function g() { 1; 'use strict'; return this === undefined } function h() { ; 'use strict'; return this === undefined } function i() { 'use strict' + ''; return this === undefined } function j() { `use strict`; return this === undefined } $p(g(), h(), i(), j());",
 	"$p(((a, b) => a + b)(1, 2), (a => a)(1), (() => ({}))(), (() => { return {} })(), (async () => 1)() instanceof Promise, ((a = 1, {b} = {b: 2}, ...c) => [a, b, c])());",
 	"var a = 1, b = 2, c = 3; $p((a, b), [(a, b)], ((a, b), c), a ? b : c ? a : b, (a ? b : c) ? a : b, a ? (b, c) : a, (a = b) ? a : c, a = b ? a : c);",
@@ -366,16 +367,23 @@ func glueNodeLiterals(r *Rng, st *Stats, n int) {
 			st.Histogram["hazard-program-invalid:"+c.src[:20]]++
 			continue
 		}
+		if oracleNoise(a) || oracleNoise(b) {
+			st.Histogram["oracle-noise"]++
+			continue
+		}
 		st.Note("hazard", c.src+c.desc, true)
 		input := map[string]string{"program": c.src, "options": c.desc, "output": c.out}
 		if strings.Contains(c.src, "\"use strict\"") && strings.Contains(c.desc, "line-limit") && !strings.Contains(c.out, "\"use strict\"") {
 			input["scenario"] = "directive-split-by-line-limit"
 		}
+		if strings.Contains(c.src, "continue; function f()") && hoistsBlockFunction(c.out) {
+			input["scenario"] = "annexb-block-function-var-assigned-at-block-entry"
+		}
 		if strings.HasPrefix(c.out, "\x00ERR:") {
 			st.Fail("valid-program-rejected", input, c.out[1:], "accepted")
 			continue
 		}
-		if !a.Same(b) {
+		if !a.Same(b) && stillDiffers(c.src, c.out) {
 			st.Fail("behaviour-differs", input, b.String(), a.String())
 		}
 	}
@@ -532,6 +540,10 @@ func glueJSX(r *Rng, st *Stats, n int) {
 			st.Histogram["jsx-generator-invalid"]++
 			continue
 		}
+		if oracleNoise(a) || oracleNoise(b) || oracleNoise(cc) {
+			st.Histogram["oracle-noise"]++
+			continue
+		}
 		if a.Err() != "" {
 			st.Histogram["jsx-reference-throws:"+a.Err()]++
 		}
@@ -539,12 +551,12 @@ func glueJSX(r *Rng, st *Stats, n int) {
 		input := map[string]string{"program": c.src, "options": "jsx=preserve," + c.desc, "preserved_output": c.p}
 		if strings.HasPrefix(c.b, "\x00") {
 			st.Fail("jsx-preserve-output-rejected", input, c.b[1:], "re-parses")
-		} else if !a.Same(b) {
+		} else if !a.Same(b) && stillDiffers(jsxPrelude+c.a, jsxPrelude+c.b) {
 			st.Fail("jsx-preserve-behaviour-differs", input, b.String(), a.String())
 		}
 		if strings.HasPrefix(c.c, "\x00") {
 			st.Histogram["jsx-automatic-rejected"]++
-		} else if !a.Same(cc) {
+		} else if !a.Same(cc) && stillDiffers(jsxPrelude+c.a, jsxPrelude+jsxAutoShim+c.c) {
 			st.Fail("jsx-automatic-behaviour-differs", map[string]string{"program": c.src, "options": "jsx=automatic,format=cjs," + c.desc, "output": c.c}, cc.String(), a.String())
 		}
 		if i < 2 {
